@@ -10,7 +10,7 @@ import (
 var HoleDocLens = []int{560, 150, 520, 150}
 
 // NumPrefixes must equal len(vPrefixes) in harness/core/zz_verif_prefixes.go.
-const NumPrefixes = 74
+const NumPrefixes = 77
 
 const contractLoc = "jerr.NewLocation replaced by its contract (panics iff the file is nil; returns File/Index unchanged; Line, Column, Quote opaque) — the contract itself is decided on the real code by the location-contract jobs (C07, also run inside C01)"
 const contractRune = "bytes.Bytes.DecodeRune (used only to render the offending character into error text) evaluated on the concrete witness; error message text after the constant prefix is outside the claim"
@@ -137,6 +137,8 @@ func propC07(c *Ctx) int {
 		c.RunJob(Job{Name: fmt.Sprintf("body error location mode=%d", mode), Pkg: "core", Fn: "HBodyError", Params: map[string]int64{"mode": mode}, Stubs: []string{"rune"}, PanicIsViolation: true, MaxPaths: 100000, Timeout: 30 * time.Minute,
 			MaxSteps: 8000000, MaxDepth: 1000, MustReach: []string{"body-error-located"}})
 	}
+	c.RunJob(Job{Name: "fault inside a cycle of user types", Pkg: "core", Fn: "HTypeCycleError", Stubs: []string{"rune"}, PanicIsViolation: true, MaxPaths: 100000, Timeout: 30 * time.Minute,
+		MaxSteps: 8000000, MaxDepth: 1000, MustReach: []string{"cycle-located", "cycle-accepted"}})
 	// every error of the build: file in the project, index inside the file (rides on the C01 harnesses)
 	for _, pre := range []int64{0, 9, 18, 27, 45, 46, 48, 56, 58} {
 		c.RunJob(Job{Name: fmt.Sprintf("error location prefix#%d +2B", pre), Pkg: "core", Fn: "HBuild", Params: map[string]int64{"n": 2, "pre": pre},
@@ -144,6 +146,7 @@ func propC07(c *Ctx) int {
 	}
 	return c.Finish("model_checking", []string{
 		"errors inside schema bodies (HBodyError): an invalid byte (symbolic choice of byte and property) in the body of TYPE / Query / Headers / Path / Request / response / Params / Result / Body — directive kind and placement (root, INCLUDEd file, pasted MACRO body) symbolic — is reported in the file that holds the body at the index of that byte with its line, column and quote; mode 1: the same with a well-formed body that references an undefined type (error raised when the catalog is compiled: index = the reference; for Path, whose checks run after all bodies, the Path keyword)",
+		"cycle of user types (HTypeCycleError): @b -> @c -> @d -> @b with optional references, a rule violation in a symbolic non-empty subset of the members (members distinguishable by key length and bound), definition order and the presence of an ENUM symbolic: the error is on the line of a faulty member's faulty property",
 		"long lines (HLocationLong): first line of 198..203 / 320 bytes with 2+2 arbitrary bytes, index symbolic over 30 boundary positions (file start, byte 100, the 197/200-byte cut, line end, file end and past it): no panic, exact line/column, quote = the line cut to 197 bytes + \"...\" above 200 bytes",
 		"include trace: root.jst with two INCLUDEs (targets symbolic over {a,b}), a and b include c at different lines; error raised in c during scanning (live stack) and after scanning (directive include tracer); variant 2: failing root directive right before an INCLUDE (no trace); variants 3/4: failing directive that FOLLOWS a nested INCLUDE inside the included file, scan-time and compile-time (the nested file must be gone from the trace): the rendered trace must be [error file:line, includer:line of its INCLUDE, root:line of the INCLUDE followed]",
 		"error location of the whole build: 2 arbitrary bytes after 9 witness prefixes with the REAL NewLocation (no contract stub): File inside the project, Index <= len(File)",
@@ -169,9 +172,14 @@ func propC14(c *Ctx) int {
 	c.RunJob(Job{Name: "include graph 3 files", Pkg: "core", Fn: "HIncludeGraph", Params: map[string]int64{"files": 3},
 		Stubs: []string{"loc", "rune"}, PanicIsViolation: true, MaxPaths: 2000000, Timeout: 30 * time.Minute,
 		MustReach: []string{"graph-accepted", "graph-cycle", "graph-missing", "graph-dir"}})
+	c.RunJob(Job{Name: "include cycle through any file", Pkg: "core", Fn: "HIncludeCycle", Params: map[string]int64{"open": 0},
+		Stubs: []string{"loc", "rune"}, PanicIsViolation: true, MaxPaths: 200000, Timeout: 30 * time.Minute, MustReach: []string{"chain-accepted", "chain-cycle"}})
+	c.RunJob(Job{Name: "include cycle with an open context", Pkg: "core", Fn: "HIncludeCycle", Params: map[string]int64{"open": 1},
+		Stubs: []string{"loc", "rune"}, PanicIsViolation: true, MaxPaths: 200000, Timeout: 30 * time.Minute, MustReach: []string{"chain-accepted"}})
 	c.RunJob(Job{Name: "include sub-directories", Pkg: "core", Fn: "HIncludeDirs", Stubs: []string{"loc", "rune"}, PanicIsViolation: true, MaxPaths: 1000, Timeout: 10 * time.Minute,
 		MustReach: []string{"dirs-ok", "dirs-missing"}})
 	return c.Finish("model_checking", []string{
+		"cycles through any file (HIncludeCycle): files r (root, starting with JSIGHT), a, b, each with an optional directive before its INCLUDE and a symbolic target in {r, a, b} or a leaf: the chain from the root ends in a leaf (accepted) or returns to a file on the chain (recursion error located in a file of the chain); second job: file a opens an explicit context before its INCLUDE (known finding F-C14-late-cycle-detection)",
 		"nested directories: root includes a/x and b/y (order symbolic), both include \"t\"; a/t exists, b/t exists or not (symbolic), a decoy t sits next to the root: resolution must be relative to the including file",
 		fmt.Sprintf("bounds: INCLUDE parameter of <= %d arbitrary bytes (all 256 values) for the name check alone, <= %d bytes through scanner + processInclude + virtual file system; include graphs: root with two INCLUDEs + 3 files with one INCLUDE each, targets over {a,b,c,directory,missing,none}", un, nn),
 		"file system = virtual (every path handed to os.Stat/os.ReadFile is logged symbolically and asserted to stay inside the including file's directory); symlinks, case-folding file systems and Windows separators are outside the claim",
@@ -333,6 +341,8 @@ func propC10(c *Ctx) int {
 	c.RunJob(Job{Name: "paste P=1 S=1 F=1", Pkg: "core", Fn: "HPaste", Params: map[string]int64{"np": 1, "ns": 1, "nf": 1, "subset": sub},
 		Stubs: []string{"loc", "rune"}, PanicIsViolation: true, MaxPaths: 20000000, Timeout: 3 * time.Hour, ReplayCap: 50000, MustReach: []string{"same-tree"}})
 	// text level: call site x block x following directive x indentation x position of the MACRO definition, catalog digests compared
+	c.RunJob(Job{Name: "one macro used twice", Pkg: "core", Fn: "HPasteTwice", Stubs: []string{"rune"}, PanicIsViolation: true, MaxPaths: 200000, Timeout: time.Hour,
+		MaxSteps: 8000000, MaxDepth: 1000, MustReach: []string{"same-catalog"}})
 	c.RunJob(Job{Name: "paste text-level", Pkg: "core", Fn: "HPasteText", Stubs: []string{"loc", "rune"}, PanicIsViolation: true, MaxPaths: 200000, Timeout: time.Hour,
 		MaxSteps: 5000000, MaxDepth: 1000, MustReach: []string{"same-catalog"}})
 	for m := int64(1); m <= 3; m++ {
@@ -401,6 +411,19 @@ func propC08(c *Ctx) int {
 			j := base
 			j.Name, j.Fn, j.Params = fmt.Sprintf("trivia doc#%d site=%d +%dB", doc, site, k), "HLayoutTrivia", map[string]int64{"doc": int64(doc), "site": int64(site), "k": k}
 			c.RunJob(j)
+			// composition: the same insertion in the skeleton rewritten to CRLF / CR line endings
+			convs := []int64{int64(site%2) + 1}
+			if thorough {
+				convs = []int64{1, 2}
+			}
+			for _, cv := range convs {
+				if !thorough && site%step != off {
+					continue
+				}
+				j := base
+				j.Name, j.Fn, j.Params = fmt.Sprintf("trivia doc#%d site=%d +2B conv=%d", doc, site, cv), "HLayoutTrivia", map[string]int64{"doc": int64(doc), "site": int64(site), "k": 2, "conv": cv}
+				c.RunJob(j)
+			}
 		}
 	}
 	// parameter quoting, annotation style, description layout
@@ -442,6 +465,7 @@ func propC08(c *Ctx) int {
 	return c.Finish("model_checking", []string{
 		fmt.Sprintf("comment content (HLayoutComment): a '#' line comment / '### ... ###' block comment with %d arbitrary content bytes (any byte but NUL; line comment without line ends; block without ### inside) at a symbolic choice among all frozen trivia sites of each skeleton (outside existing comments): same verdict, same deep digest", kcm),
 		"between a keyword line and its body (HLayoutBody): 11 body-carrying directives (TYPE, Query, Headers, Path, Request, response, Params, Result, Body x2, ENUM) x placement (root / pasted MACRO) x 6 rewrites (explicit ( ) around the body; '#' line comment; one-line ### block; multi-line ### block with a blank line; blank + whitespace-only lines; ( ) plus block comment), all symbolic choices; for TYPE and Body a comment before the body is a schema comment (part of the body text, not of the schema) and is discounted from the digest",
+		"compositions: trivia insertion x line-ending rewrite (the skeleton and the variant both rewritten to CRLF / CR; every site in the thorough tier, every 3rd in the quick tier); model x layout in C02 (group 9)",
 		"relational: 5 skeleton projects (3 accepted incl. MACRO/PASTE/INCLUDE/regex/enum/descriptions/explicit contexts; 2 rule-rejected) built twice, skeleton vs rewrite; equal catalog digest (every entity, order, names, annotations, descriptions, schema text without blanks) or same error class with the error index moved by the inserted length",
 		fmt.Sprintf("rewrites: LF->CRLF, LF->CR, uniform indentation by 1..2(3) symbolic blanks, a symbolic trailing blank on every line; %d symbolic trivia bytes (blank line / '#' comment line / trailing blanks / trailing comment) at every %s legal site (sites = positions outside bodies, description texts and annotations, found by scanning the skeleton)", k, map[bool]string{true: "", false: "3rd (seed-rotated)"}[thorough]),
 		"quoting a bare parameter (content symbolic), // vs /* */ annotation (content symbolic), Description text: line-ending convention, uniform indent and ( ) wrapping over symbolic lines",
@@ -458,7 +482,7 @@ func propC09(c *Ctx) int {
 	if thorough {
 		maxSpan = 8
 	}
-	for doc := int64(0); doc < 5; doc++ {
+	for doc := int64(0); doc < 7; doc++ {
 		for span := int64(1); span <= maxSpan; span++ {
 			j := base
 			j.Name, j.Params = fmt.Sprintf("split doc#%d span=%d", doc, span), map[string]int64{"doc": doc, "span": span, "depth": 1}
@@ -471,8 +495,8 @@ func propC09(c *Ctx) int {
 		}
 	}
 	return c.Finish("model_checking", []string{
-		fmt.Sprintf("relational: 5 skeleton projects (3 accepted, 2 rule-rejected) vs the same project with the run of 1..%d consecutive directive blocks starting at a symbolic directive boundary moved into piece.jst and replaced by INCLUDE (depth 2: the piece is cut once more into inner.jst); symbolic: cut position, LF/CRLF after INCLUDE, tail of the included file (as is / no final line end / extra blank line / comment line where trivia is legal)", maxSpan),
-		"oracle: equal catalog digest (every entity, order, names, annotations, descriptions, schema text) or the same error class, located in the file that now holds the directive at the corresponding index",
+		fmt.Sprintf("relational: 5 skeleton projects (3 accepted, 2 rule-rejected) and 2 documents rejected while a macro body is expanded at its PASTE (the MACRO may end up in the included file) vs the same project with the run of 1..%d consecutive directive blocks starting at a symbolic directive boundary moved into piece.jst and replaced by INCLUDE (depth 2: the piece is cut once more into inner.jst); symbolic: cut position, LF/CRLF after INCLUDE, tail of the included file (as is / no final line end / extra blank line / comment line where trivia is legal)", maxSpan),
+		"oracle: equal catalog digest (every entity, order, names, annotations, descriptions, schema text, emitter-level content) or the same error MESSAGE (whole text), located in the file that now holds the directive at the corresponding index",
 		"pieces are cut at directive boundaries only (not inside a directive); JSIGHT stays in the root file; file system = virtual",
 		contractLoc, contractRune,
 	}, map[string]interface{}{})
@@ -480,9 +504,9 @@ func propC09(c *Ctx) int {
 
 func propC06(c *Ctx) int {
 	thorough := c.Tier == "thorough"
-	docs := []int64{0, 1, 2, 3, 4, 5, 6, 7, 8, 9, 10, 12}
+	docs := []int64{0, 1, 2, 3, 4, 5, 6, 7, 8, 9, 10, 11, 12, 14}
 	if thorough {
-		docs = []int64{0, 1, 2, 3, 4, 5, 6, 7, 8, 9, 10, 11, 12, 13, 14}
+		docs = []int64{0, 1, 2, 3, 4, 5, 6, 7, 8, 9, 10, 11, 12, 13, 14, 15, 16}
 	}
 	totalSites := 0
 	for _, doc := range docs {
@@ -496,10 +520,14 @@ func propC06(c *Ctx) int {
 			totalSites++
 		}
 	}
+	c.RunJob(Job{Name: "second build in one process", Pkg: "core", Fn: "HRebuild", Stubs: []string{"loc", "rune"}, PanicIsViolation: true, MaxPaths: 100000, Timeout: 30 * time.Minute,
+		MaxSteps: 20000000, MaxDepth: 1000, MustReach: []string{"rebuilt"}})
 	static := StaticNondeterminismScan(c)
 	return c.Finish("model_checking", []string{
 		"dynamic part: each project is built with insertion-ordered maps and built again with ONE range-over-map site (sites numbered in execution order, in the repository and in jsight-schema-core alike) iterating in a symbolic order — a full symbolic permutation (Lehmer code) for maps of <= 4 entries, a symbolic rotation + optional reversal above; every execution of that site uses the same symbolic order; the solver looks for an order that changes accept/reject, message, file, index, include trace or the catalog digest",
-		fmt.Sprintf("projects: 10 determinism fixtures (a Tags directive repeating one of three tags; a path repeating two different parameters; two servers/tags/enums/OperationIds; several enums/types/path variables/allOf; two independent faults; three recursive macros; property overrides; path parameters defined on several levels; a Path schema with two unused properties; two types using undefined types) + layout skeletons; %d (project, site) pairs this run", totalSites),
+		"prior builds (HRebuild): two projects at the SAME paths, differing in the symbolic names written in the root file and in an included file (the first one optionally failing), built one after the other in one process (one interpreter world: package-level variables persist): the second catalog says exactly what the second project says",
+		"outside the encoding: builds running CONCURRENTLY (the interpreter is sequential: no goroutine is ever started by the build code of the pinned tree; a go statement, channel operation or a store to a package-level variable outside init appears in the static list below and is not executed symbolically), separate processes, encoding/json",
+		fmt.Sprintf("projects: 12 determinism fixtures (user types in a reference cycle with faults in several members, with and without an ENUM; a Tags directive repeating one of three tags; a path repeating two different parameters; two servers/tags/enums/OperationIds; several enums/types/path variables/allOf; two independent faults; three recursive macros; property overrides; path parameters defined on several levels; a Path schema with two unused properties; two types using undefined types) + layout skeletons; %d (project, site) pairs this run", totalSites),
 		"interactions between the orders of two different sites, cross-process effects other than map order, and everything below json.Marshal are outside the claim; a counterexample is confirmed natively by rebuilding the project 200 times (Go randomises map iteration)",
 		"static part (evidence.coverage.static_scan): every range-over-map, time / math/rand / os.Getenv call and pointer-to-integer conversion in the repository's packages, from the SSA of the current tree",
 		contractRune,
@@ -520,6 +548,12 @@ func propC05(c *Ctx) int {
 		j := base
 		j.Quiet = false
 		j.Name, j.Fn, j.MustReach = "path variables model", "HPathVarsModel", []string{"closed"}
+		c.RunJob(j)
+	}
+	{
+		j := base
+		j.Quiet = false
+		j.Name, j.Fn, j.MustReach = "used names model", "HUsedModel", []string{"closed", "undefined-rejected"}
 		c.RunJob(j)
 	}
 	// closure invariants on every accepted document of the hole family
@@ -554,9 +588,10 @@ func propC05(c *Ctx) int {
 		c.RunJob(j)
 	}
 	return c.Finish("model_checking", []string{
-		"closure invariants (harness/core/zz_verif_c05.go vCheckClosure) asserted on the catalog structs of every ACCEPTED document: interaction key == id == '<protocol> <method> <path>'; every tag named by an interaction exists and lists it exactly once under its protocol, and vice versa; pathVariables present exactly when the path has {parameters}, and its schema has exactly those parameters as properties; response codes 1xx-5xx with a body; JSIGHT version 0.3",
+		"closure invariants (harness/core/zz_verif_c05.go vCheckClosure) asserted on the catalog structs of every ACCEPTED document: interaction key == id == '<protocol> <method> <path>'; every tag named by an interaction exists and lists it exactly once under its protocol, and vice versa; pathVariables present exactly when the path has {parameters}, and its schema has exactly those parameters as properties; response codes 1xx-5xx with a body; JSIGHT version 0.3; every name in the usedUserTypes / usedUserEnums lists the JSON emitter builds for each schema (types, path variables, query, request/response headers and bodies, params, result) is a defined type / enum and occurs once",
+		"used names model (HUsedModel): a response body assembled from a symbolic subset of 10 reference forms (property of a type, array of a type, or-rule, enum rule, type union, allOf on a nested object and on the root, key shortcut, type rule, additionalProperties), one symbolically chosen form naming an undefined type/enum: rejected exactly then; otherwise closure, and usedUserTypes = the types the selected forms name (observation, not asserted: the emitter never fills usedUserEnums — no Add call exists in the repository; no property demands it)",
 		"document families: path-variable model (Path directives on URL level, method level, on a longer path sharing the prefix, in both orders — all symbolic); TAG/Tags model with symbolic tag choices (up to three names incl. the same tag twice, adjacent or not, and an undeclared tag, URL-level and method-level Tags, HTTP and JSON-RPC); representative documents with a 2-byte symbolic substitution hole (sampled cuts in the quick tier); INCLUDE-split and MACRO/PASTE rewrites of the skeletons",
-		"outside: usedUserTypes/usedUserEnums (computed by jsight-schema-core, visible only in the JSON), the JSON rendering itself (encoding/json), names of the pathVariables schema properties",
+		"outside: the JSON rendering itself (encoding/json)",
 		contractLoc, contractRune,
 	}, map[string]interface{}{})
 }
@@ -608,7 +643,7 @@ func propC02(c *Ctx) int {
 		reached += jr.Stats.Reached["model-roundtrip"]
 	}
 	// feature groups: semantically related features symbolic together (two seeded settings of the rest each)
-	for g := int64(1); g <= 8; g++ {
+	for g := int64(1); g <= 9; g++ {
 		reps := 1
 		if thorough {
 			reps = 6
@@ -622,10 +657,10 @@ func propC02(c *Ctx) int {
 		}
 	}
 	for i := 0; i < jobs1; i++ {
-		mk(1, 37, bits1)
+		mk(1, 38, bits1)
 	}
 	for i := 0; i < jobs2; i++ {
-		mk(2, 59, bits2)
+		mk(2, 60, bits2)
 	}
 	if reached == 0 {
 		c.Results[0].Inconclusive = append(c.Results[0].Inconclusive, "vacuity: no model round-trip was reached")
@@ -633,7 +668,7 @@ func propC02(c *Ctx) int {
 	c.Log("model round-trips reached: %d", reached)
 	return c.Finish("model_checking", []string{
 		"abstract model (harness/core/zz_verif_c02.go): INFO (title, version, description), up to two SERVERs, TAGs, TYPEs (jsight and regex), ENUMs, an optional JSON-RPC method (Params / Result / Description / Tags variants), 1..2 HTTP interactions (all five methods x path pool, request with Headers and Body in either order, response bodies any / @type / [@type] / inline schema, own Tags / URL-level Tags / path tag, annotation, description, query, request none/any/schema/headers+body, OperationId, Tags or path tag, 1..2 responses in either order with any/@type/inline schema bodies, response headers and annotations), rendered with URL grouping or stand-alone methods, explicit ( ) or implicit contexts, // or /* */ annotations",
-		fmt.Sprintf("8 feature groups (tags: declared tags x own (one or two, either order) / URL-level Tags x grouping x paths; entities; responses; request/description/query (none, body, noFormat, example, example+noFormat, htmlFormEncoded); grouping/explicit contexts; second interaction; JSON-RPC x tags; method x path x query x enums) are made symbolic together with seeded settings of the rest; in addition each mask job makes %d (1 interaction) / %d (2 interactions) of the ~37/59 feature choices symbolic (seeded selection, the solver explores all their combinations) and fixes the rest (seeded); %d+%d jobs this run; the expected catalog digest — including, for every schema and enum, the content tree / rules / notes / used types that the JSON emitter hands to encoding/json (vDigestDeep) — is computed from the model alone and compared entry by entry (nothing missing, nothing invented, order, attachment to the right interaction/response), followed by the C05 closure invariants", bits1, bits2, jobs1, jobs2),
+		fmt.Sprintf("9 feature groups (tags: declared tags x own (one or two, either order) / URL-level Tags x grouping x paths; entities; responses; request/description/query (none, body, noFormat, example, example+noFormat, htmlFormEncoded); grouping/explicit contexts; second interaction; JSON-RPC x tags; method x path x query x enums; LAYOUT of the rendering x grouping x explicit contexts x annotation style x entities: as rendered / CRLF / CR / comments, blank lines and block comments before top-level directives / definitions moved into an INCLUDEd file in a sub-directory / all interactions moved into a MACRO pasted at root / quoted paths) are made symbolic together with seeded settings of the rest; in addition each mask job makes %d (1 interaction) / %d (2 interactions) of the ~38/60 feature choices symbolic (seeded selection, the solver explores all their combinations) and fixes the rest (seeded); %d+%d jobs this run; the expected catalog digest — including, for every schema and enum, the content tree / rules / notes / used types that the JSON emitter hands to encoding/json (vDigestDeep) — is computed from the model alone and compared entry by entry (nothing missing, nothing invented, order, attachment to the right interaction/response), followed by the C05 closure invariants", bits1, bits2, jobs1, jobs2),
 		"outside: JSON emission (encoding/json), more than two HTTP interactions + one JSON-RPC method, combinations of more feature choices than the symbolic ones of a job, MACRO/PASTE and INCLUDE renderings (covered relationally by C10/C09), layout variants (C08)",
 		contractLoc, contractRune,
 	}, map[string]interface{}{"model_roundtrips": reached})
